@@ -1,5 +1,6 @@
-use vkit::Check;
+mod c17;
+mod spec;
+use vkit::{Check, Level};
 fn main() {
-    let checks: &[Check] = &[];
-    vkit::main(checks);
+    vkit::main(&[Check { id: "C17", level: Level::ModelChecking, run: c17::run }]);
 }
